@@ -10,7 +10,7 @@ from sa.cf import cfg_of
 from sa.pm import FuncInfo, call_name, norm, self_attr, walk_local_ordered
 from sa.report import Ob, rule
 
-from .common import attr_stores, expand, ob, strip_ret, traces
+from .common import local_defs, attr_stores, expand, ob, strip_ret, traces
 
 MQ = 'zeroconf._handlers.multicast_outgoing_queue.MulticastOutgoingQueue'
 LS = 'zeroconf._listener.AsyncListener'
@@ -195,6 +195,27 @@ def _tsym(attrs: Dict[str, str]) -> Any:
     return sym
 
 
+def purge_covers_all(ctx: Any, R: str) -> List[Ob]:
+    """Removal of answers from the queue visits every (queued group, record) pair: two nested loops, a tolerant pop, and no
+    way out of either loop before it is exhausted (a record can sit in several groups -- a later query with a later
+    send time opens a new group without de-duplicating against the earlier ones)."""
+    prog = ctx.prog
+    rm = prog.func(MQ + '._remove_answers_from_queue')
+    pops = [c for c in walk_local_ordered(rm.node) if isinstance(c, ast.Call) and call_name(c) == 'pop' and len(c.args) == 2]
+    loops = [n for n in walk_local_ordered(rm.node) if isinstance(n, ast.For)]
+    exits = [n for lp in loops for n in ast.walk(lp) if isinstance(n, (ast.Break, ast.Return, ast.Raise))]
+    conts = [n for lp in loops for n in ast.walk(lp) if isinstance(n, ast.Continue)]
+    me_ = rm.params[0]
+    over_queue = any(any(self_attr(x, me_) == 'queue' for x in ast.walk(lp.iter)) or (isinstance(lp.iter, ast.Name) and any(self_attr(v, me_) == 'queue' for v in local_defs(rm).get(lp.iter.id, []) if v is not None)) for lp in loops)
+    over_answers = any(isinstance(lp.iter, ast.Name) and lp.iter.id == rm.params[1] for lp in loops)
+    good = len(pops) == 1 and len(loops) == 2 and over_queue and over_answers and not exits and not conts
+    why = ''
+    if exits or conts:
+        x = (exits + conts)[0]
+        why = f'`{type(x).__name__.lower()}` at line {x.lineno} leaves a loop early: later groups (or records) are not purged'
+    return [ob(R, rm, pops[0] if pops else 'pending.answers.pop(record, None)', 'removal tolerates absent records and covers every queued group and every record (no early exit from either loop)', good, why)]
+
+
 @rule('C12.WIRING', 'D', expect_min=8)
 def wiring(ctx: Any) -> List[Ob]:
     """Flush logic of the queue and the truncated-query timer: the flush waits for
@@ -328,9 +349,7 @@ def wiring(ctx: Any) -> List[Ob]:
         if not (armed or empty):
             bad_paths.append(' -> '.join(f'{n.line}' for n, _ in path if n.line))
     obs.append(ob(R, rdy, f'{n_paths} path(s) through the flush', 'every path leaves the queue empty or the flush timer armed (a queued group is never stranded without a timer)', n_paths > 0 and not bad_paths, 'path through lines ' + '; '.join(bad_paths[:3])))
-    rm = prog.func(MQ + '._remove_answers_from_queue')
-    pops = [c for c in walk_local_ordered(rm.node) if isinstance(c, ast.Call) and call_name(c) == 'pop' and len(c.args) == 2]
-    obs.append(ob(R, rm, pops[0] if pops else 'pending.answers.pop(record, None)', 'removal from later groups tolerates absent records and covers every queued group', len(pops) == 1 and sum(1 for n in walk_local_ordered(rm.node) if isinstance(n, ast.For)) == 2))
+    obs.extend(purge_covers_all(ctx, R))
     # TC timer
     hq = prog.func(LS + '.handle_query_or_defer')
     cfg = cfg_of(hq.node)
